@@ -23,7 +23,7 @@ CHECKS = {
     "C01": dict(
         category="model_checking", design_ref="DESIGN.md §3.3, §4 C01",
         technique="TLA+ abstract IR object graph (one pure operator per public mutator) explored by TLC breadth-first and by simulation; every explored history replayed on real objects; TLC evaluates the C01 predicate on pointer-walk projections taken after every call (also from traced real passes and random wider-API histories)",
-        text="TLC enumerates every history of <=2 mutator calls from two initial IRs over 28 action kinds (thorough: over a wider universe of 8 ops / 5 blocks / 7 values to pick arguments from) plus random walks of depth 30-40 (400 / 12000 per initial IR); each history is replayed through the public API (Block/Region/Operation methods, Rewriter, PatternRewriter routes) and after every call both directions of every op/block list, parent pointers, use chains and indices are projected and judged by TLC against IRProj.tla; the same judge sees projections from seeded random histories over the wider API and from the repository's passes running on corpus modules under run-time mutator wrappers. End states are compared with the model (divergence only).",
+        text="TLC enumerates every history of <=2 mutator calls from two initial IRs over 28 action kinds (thorough: over a wider universe of 8 ops / 5 blocks / 7 values to pick arguments from) plus random walks of depth 30-40 (400 / 3000 per initial IR); each history is replayed through the public API (Block/Region/Operation methods, Rewriter, PatternRewriter routes) and after every call both directions of every op/block list, parent pointers, use chains and indices are projected and judged by TLC against IRProj.tla; the same judge sees projections from seeded random histories over the wider API and from the repository's passes running on corpus modules under run-time mutator wrappers. End states are compared with the model (divergence only).",
         note="Trusted: harness/project.py reads the private pointers faithfully; erased objects are those the harness saw erased; calls with false documented preconditions are not issued and a raising/hanging call ends its history. Bounds: universe of 7-9 ops, 4-6 blocks, 3 regions in the model; larger in random histories and traced passes."),
     "C02": dict(
         category="exploration", design_ref="DESIGN.md §3.3, §4 C02",
